@@ -231,7 +231,7 @@ impl ReceiverLink {
 //@@ selfmut
 //@@ param writer : &mut ChanSender<LinkFrame>
 //@@ subst `let handle = self .output_handle .clone() .ok_or(FlowError::IllegalState)? .into();` => `let handle: Handle = output_to_handle(self.output_handle.clone().ok_or(FlowError::IllegalState)?);` rule=R16
-//@@ subst `.map_err(|_v0| __E1)` => `.map_err(|_v0: ChanSendError| -> (o: DispositionError) ensures o == flow_stop_err(self.session_stop_reason.val()) { __E1 })` rule=R18
+//@@ subst `.map_err(|_v0| __E1)` => `.map_err(|_v0: ChanSendError| -> (o: DispositionError) ensures o == flow_stop_err(self.session_stop_reason.val()) { __E1 })` rule=R18 unless `\.map_err\(`
 //@@ spec
     ensures
         old(self).output_handle is None ==> r is Err && final(self).flow_state == old(self).flow_state && final(writer).sent@ == old(writer).sent@,   // [C09.flow.needs-handle] a link without an output handle (detached) sends no flow and records no credit
